@@ -18,13 +18,14 @@ func (t Ty) String() string { return [...]string{"Int", "Float", "String", "Bool
 
 // Metric is a declaration.
 type Metric struct {
-	Name   string   `json:"name"`
-	Kind   string   `json:"kind"` // counter gauge timer text
-	Ty     Ty       `json:"ty"`
-	Keys   []string `json:"keys,omitempty"`
-	Hidden bool     `json:"hidden,omitempty"`
-	As     string   `json:"as,omitempty"`
-	Limit  int      `json:"limit,omitempty"`
+	Name    string    `json:"name"`
+	Kind    string    `json:"kind"` // counter gauge timer text
+	Ty      Ty        `json:"ty"`
+	Keys    []string  `json:"keys,omitempty"`
+	Hidden  bool      `json:"hidden,omitempty"`
+	As      string    `json:"as,omitempty"`
+	Limit   int       `json:"limit,omitempty"`
+	Buckets []float64 `json:"buckets,omitempty"`
 }
 
 // Exported returns the exported name.
